@@ -33,6 +33,20 @@ INV_DTYPE_LOOKUP = {
 }
 
 
+def resolve_data_path_arg(arg, source_data):
+    """Replace a `DataPath` argument, also where nested within a list, tuple or mapping
+    argument (where `ConditionLike.from_spec` may place it), by the data it selects."""
+    if isinstance(arg, valida.datapath.DataPath):
+        return arg.get_data(source_data, return_paths=False)
+    elif isinstance(arg, list):
+        return [resolve_data_path_arg(i, source_data) for i in arg]
+    elif isinstance(arg, tuple):
+        return tuple(resolve_data_path_arg(i, source_data) for i in arg)
+    elif isinstance(arg, dict):
+        return {k: resolve_data_path_arg(v, source_data) for k, v in arg.items()}
+    return arg
+
+
 class PreparedConditionCallable:
     def __init__(self, func, *args, **kwargs):
         self._func = func
@@ -49,15 +63,11 @@ class PreparedConditionCallable:
 
         resolved_args = []
         for arg in self.args:
-            if isinstance(arg, valida.datapath.DataPath):
-                arg = arg.get_data(source_data, return_paths=False)
-            resolved_args.append(arg)
+            resolved_args.append(resolve_data_path_arg(arg, source_data))
 
         resolved_kwargs = {}
         for k, v in self.kwargs.items():
-            if isinstance(v, valida.datapath.DataPath):
-                v = v.get_data(source_data, return_paths=False)
-            resolved_kwargs[k] = v
+            resolved_kwargs[k] = resolve_data_path_arg(v, source_data)
 
         return tuple(resolved_args), resolved_kwargs
 
